@@ -122,6 +122,24 @@ def run_case(stream, seed, ctx, params):
     for c in d.cells:
         c.hints.pop('trcl_num', None)
         c.hints.pop('fill_num', None)
+    twin = None
+    if fault in ('trcl-m', 'fill-m') and rng.random() < 0.5:
+        # the faulty transformation is the second occurrence of its twelve numbers: an earlier card carries the same
+        # transformation, validly (a row of identical racks, one of them with m=-1)
+        cands = [c for c in d.cells if (c.trcl is not None if fault == 'trcl-m' else (c.fill and c.fill.get('tr') is not None))]
+        cands = [c for c in cands if not (c.trcl if fault == 'trcl-m' else c.fill['tr']).is_translation()
+                 and d.cells.index(c) > 0]
+        if cands:
+            c = rng.choice(cands)
+            star = rng.random() < 0.5
+            m = c.trcl if fault == 'trcl-m' else c.fill['tr']
+            c0 = rng.choice(d.cells[:d.cells.index(c)])
+            if 'raw' not in c0.hints and not c0.lat:
+                c0.trcl = D.Motion(list(m.o), list(m.b))
+                c0.hints.pop('trcl_star', None)
+                if star:
+                    c0.hints['trcl_star'] = True
+                twin = (c, star)
     base_text = D.render_deck(d, D.Layout(rng))
     base_args = [x for lo in d.lattice_opts for x in ('--lattice', lo)]
     base = impl.convert(base_text, base_args)
@@ -146,6 +164,8 @@ def run_case(stream, seed, ctx, params):
             return None
         c = rng.choice(cands)
         star = rng.random() < 0.5
+        if twin is not None:
+            c, star = twin
         line = D.render_cell(c, D.Layout(rng))
         m = c.trcl if fault == 'trcl-m' else c.fill['tr']
         kw = 'trcl' if fault == 'trcl-m' else 'fill'
@@ -160,7 +180,7 @@ def run_case(stream, seed, ctx, params):
         if star:
             piece = '*' + piece
         c.hints['raw'] = head + piece + line[old.end():]
-        detail = 'star' if star else 'plain'
+        detail = ('star' if star else 'plain') + ('+twin' if twin is not None else '')
         text = D.render_deck(d, D.Layout(rng))
     elif fault == 'lat-noopt':
         c = rng.choice(lat)
